@@ -521,18 +521,29 @@ fn nested_chains(ex: &Ex) {
             }
         }
     }
-    par_partitions(ex.rep, work, |(k, prot, array), l| {
+    let build = |k: usize, prot: bool, array: bool| -> Vec<RVal> {
         let mut h = RHeader { alg: Some(l_int(-7)), ..Default::default() };
-        for _ in 0..*k {
-            let sig = if *prot {
+        for _ in 0..k {
+            let sig = if prot {
                 RSignature { protected: RProtected { original: None, header: h.clone() }, unprotected: RHeader::default(), signature: vec![1] }
             } else {
                 RSignature { protected: RProtected::default(), unprotected: h.clone(), signature: vec![2] }
             };
-            let css = if *array { vec![sig_reps()[0].clone(), sig] } else { vec![sig] };
+            let css = if array { vec![sig_reps()[0].clone(), sig] } else { vec![sig] };
             h = RHeader { counter_signatures: css, ..Default::default() };
         }
-        for rv in [RVal::Header(h.clone()), RVal::Sign1(RSign1 { protected: RProtected { original: None, header: h.clone() }, unprotected: h.clone(), payload: None, signature: vec![] })] {
+        vec![RVal::Header(h.clone()), RVal::Sign1(RSign1 { protected: RProtected { original: None, header: h.clone() }, unprotected: h.clone(), payload: None, signature: vec![] })]
+    };
+    // the deepest chain of any kind the decoder accepts
+    let mut deepest = 0usize;
+    for (k, prot, array) in &work {
+        if build(*k, *prot, *array).iter().all(|rv| subject::decode(rv.ty(), &encode(rv).det()).is_ok()) {
+            deepest = deepest.max(*k);
+        }
+    }
+    ex.bound("c11.nesting", "deepest_chain_the_decoder_accepts", json!(deepest));
+    par_partitions(ex.rep, work, |(k, prot, array), l| {
+        for rv in build(*k, *prot, *array) {
             l.state(*k as u64);
             // domain: the decoder accepts the reference encoding
             let bytes = encode(&rv).det();
@@ -541,7 +552,14 @@ fn nested_chains(ex: &Ex) {
                     l.count("c11.nesting.within_decoder_limit");
                     check_value(ex.pid, &rv, l);
                 }
-                _ => l.count("c11.nesting.beyond_decoder_limit"),
+                o => {
+                    l.count("c11.nesting.beyond_decoder_limit");
+                    // the bound on nesting must be a function of the depth alone: a chain no deeper
+                    // than one the decoder demonstrably handles is a well-formed value like any other
+                    if *k <= deepest {
+                        l.viol(viol(ex.pid, "nesting-limit-depends-on-the-path", &rv, format!("decodes (chains {} levels deep are accepted through other header positions)", deepest), o.brief()));
+                    }
+                }
             }
         }
     });
